@@ -31,7 +31,10 @@ RULE = ('one case = (interface, number of signers, number of recipients, key pro
         'signed message without valid signer information; distinct = distinct tuple; non-trivial = the library built the '
         'message and the opening/verifying interface was called on it')
 ASSUMPTIONS = ['what the signers sign is the convention named in the property anchors: SM3 over the DER of the encapsulated '
-               'ContentInfo (header and content) followed by the authenticated attributes, used directly as the SM2 digest',
+               'ContentInfo (header and content) followed by the authenticated attributes, used directly as the SM2 digest '
+               '(the GB/T 32918 form with the Z prefix and the default ID is accepted by the reference as well)',
+               'content output blocks: exactly the content length for pristine messages; the message length for tampered ones '
+               '(cms_deenvelop / cms_decrypt take no capacity; cmsdecrypt.c allocates the message length)',
                'a key object assembled by the harness (public part copied from the certificate, private scalar written into the '
                'struct) stands in as positive control for the tamper neighbourhood when no API-made key object opens a message; '
                'its own round trip carries no verdict',
@@ -238,7 +241,7 @@ def gen_content(ctx, slot, for_sign):
     """-> (type name, content octets).  Sizes cycle through SIZES + random; for signing a non-data content must be one DER
     value, so a SEQUENCE of roughly the wanted size is used there."""
     rng = ctx.rng
-    sizes = SIZES + [rng.randint(2, 300), rng.randint(301, 70000)]
+    sizes = SIZES + [rng.randint(2, 300), rng.randint(301, 65536)]
     size = sizes[slot % len(sizes)]
     tname = TYPE_NAMES[(slot // 3) % 6] if slot % 3 else 'data'
     if for_sign and tname != 'data':
@@ -541,7 +544,7 @@ def run_tamper(ctx, rep, iface, msg, named, opener, note):
         mb.write(msg[o:o + 1], o)
         # a flip that the library accepts AND that leaves the delivered content unchanged is keyed apart (it is the signature of
         # padding octets nobody checks); one that delivers other content under "success" is the unauthenticated-CBC class
-        rep.judge(not acc[0], '%s:tamper-accepted:%s%s' % (iface, f, ':content-unchanged' if acc[1] else ''), offset=o, bit=b, message=msg.hex() if len(msg) <= 1500 else
+        rep.judge(not acc[0], '%s:tamper-accepted:%s%s' % (iface, f, ':content-unchanged' if acc[1] and f in ('iv', 'ciphertext') else ''), offset=o, bit=b, message=msg.hex() if len(msg) <= 1500 else
                   msg[:64].hex() + '...', length=len(msg), returned_original_content=acc[1], note=note)
         ctx.nontrivial(iface, 'tamper', f, o, b, msg[:48], len(msg))
     acc_n = 0
@@ -625,7 +628,8 @@ def u_sign(ctx, u):
         rep.judge(False, 'sign:verify-failed:%d-signer%s' % (ns, '' if ns == 1 else 's'), ret=v.ret, **detail)
     else:
         ctx.ok(1)
-        rep.judge(v.content == expected_signed_content(tname, content), 'sign:content-not-returned', got=v.content[:64].hex(), **detail)
+        # data content: the OCTET STRING that carries it (present behaviour, what cmsverify unwraps) or the bare octets
+        rep.judge(v.content in (expected_signed_content(tname, content), content), 'sign:content-not-returned', got=v.content[:64].hex(), **detail)
         rep.judge(v.content_type == types(ctx)[tname], 'sign:content-type-not-returned', got=v.content_type, **detail)
         got = certs_in(v.certs)
         rep.judge(got is not None and all(s.cert in got for s in signers), 'sign:signer-certificates-not-returned',
